@@ -45,30 +45,26 @@ Theorem c15_no_panic_cached_package : forall chk, Returns (cached_package_slice 
 Proof. exact cached_package_slice_returns. Qed.
 Print Assumptions c15_no_panic_cached_package.
 
-(* header.Name[0] in the install loops: refuted by an entry with an empty name
-   met before the data section started; holds for every non-empty name *)
-Theorem c15_install_entry_name_refuted : exists started name, install_hidden_test started name = Panic.
-Proof. exists false, ""%string. exact install_hidden_test_refuted. Qed.
-Print Assumptions c15_install_entry_name_refuted.
-Theorem c15_install_entry_name_partial : forall started name, name <> ""%string -> Returns (install_hidden_test started name).
-Proof. exact install_hidden_test_partial. Qed.
-Print Assumptions c15_install_entry_name_partial.
+(* the hidden-file test of both install loops (fix 6e06851; header.Name[0] used to
+   panic on an entry with an empty name): every name, started or not *)
+Theorem c15_no_panic_install_entry_name : forall started name, Returns (install_hidden_test started name).
+Proof. exact install_hidden_test_returns. Qed.
+Print Assumptions c15_no_panic_install_entry_name.
 
-(* standardizePath: p[0] on the empty path *)
-Theorem c15_standardize_path_refuted : exists p, standardize_path p = Panic.
-Proof. exists ""%string. exact standardize_path_refuted. Qed.
-Print Assumptions c15_standardize_path_refuted.
-Theorem c15_standardize_path_partial : forall p, p <> ""%string -> Returns (standardize_path p).
-Proof. exact standardize_path_partial. Qed.
-Print Assumptions c15_standardize_path_partial.
+(* standardizePath (fix 5614ee6; p[0] used to panic on the empty path) *)
+Theorem c15_no_panic_standardize_path : forall p, Returns (standardize_path p).
+Proof. exact standardize_path_returns. Qed.
+Print Assumptions c15_no_panic_standardize_path.
 
-(* groupByOriginAndSize: make([]*group, 0, budget) with the unvalidated budget of the configuration *)
-Theorem c15_layer_budget_refuted : exists b, make_groups b = Panic.
-Proof. exists (-1)%Z. exact make_groups_refuted. Qed.
-Print Assumptions c15_layer_budget_refuted.
-Theorem c15_layer_budget_partial : forall b, (0 <= b <= 35184372088832)%Z -> Returns (make_groups b).
-Proof. exact make_groups_partial. Qed.
-Print Assumptions c15_layer_budget_partial.
+(* the layering budget of the configuration (fix d47e591; make([]*group, 0, budget)
+   used to panic on a negative or huge budget): every integer *)
+Theorem c15_no_panic_layer_budget : forall b, Returns (make_groups b).
+Proof. exact make_groups_returns. Qed.
+Print Assumptions c15_no_panic_layer_budget.
+(* ... and buildLayers in the source does test the budget before grouping *)
+Theorem c15_layer_budget_guard_pinned : layer_budget_guards = ["budget < 0"%string].
+Proof. reflexivity. Qed.
+Print Assumptions c15_layer_budget_guard_pinned.
 
 (* sortTarHeaders on a file list with a directory entry named "./": the entry is
    its own child, the recursion never ends whatever the fuel (in Go: stack overflow) *)
